@@ -32,7 +32,8 @@ pub fn install(n: usize, v: [u32; 9]) -> &'static str {
     let mut s = String::new();
     for k in 0..n {
         if k > 0 {
-            s.push(if k % 2 == 0 { '\t' } else { ' ' });
+            // every separator is whitespace per `char::is_whitespace`, ASCII and not
+            s.push([' ', '\u{a0}', '\t', '\u{2003}', '\n', '\u{3000}', '\u{b}', '\u{2028}'][k % 8]);
         }
         let w = v[k];
         if w == 0 {
